@@ -11,7 +11,7 @@ import (
 
 func init() {
 	register(&Rule{ID: "VF-26", Title: "transfer counts: a ReadAt/WriteAt result n is accepted as complete only against the full length of the buffer (or the buffer is cut down to n)",
-		Props: []string{"C11", "C02", "C01"}, Floor: 3, Run: runVF26})
+		Props: []string{"C11", "C02", "C01", "C03"}, Floor: 3, Run: runVF26})
 }
 
 // io.ReaderAt may return io.EOF together with a complete read, so the code tolerates EOF when "everything was
